@@ -22,7 +22,7 @@ pub struct Case {
 }
 
 /// (length, total turning, r0, r1, bump, samples)
-pub const A_SECTIONS: [(f64, f64, f64, f64, f64, usize); 15] = [
+pub const A_SECTIONS: [(f64, f64, f64, f64, f64, usize); 17] = [
     (10.0, 0.0, 0.5, 0.2, 0.0, 200),
     (10.0, 0.6, 0.4, 0.15, 0.6, 300),
     (0.8, 0.4, 0.03, 0.012, 0.05, 300),
@@ -43,6 +43,9 @@ pub const A_SECTIONS: [(f64, f64, f64, f64, f64, usize); 15] = [
     (0.5, 0.6, 0.02, 0.0075, 0.03, 300),
     // camber line turning by 115 degrees: the spanning rays at its two ends point in opposed directions
     (10.0, 2.0, 0.45, 0.3, 0.0, 400),
+    // an arch turning by 137 degrees, bulging upwards (negative bend) and downwards
+    (10.0, -2.4, 0.4, 0.3, 0.0, 400),
+    (10.0, 2.4, 0.4, 0.3, 0.0, 400),
 ];
 /// reflexed-camber sections: (chord, marker, r0, r1, bump, samples); the second entry only has to be non-zero
 pub const R_SECTIONS: [(f64, f64, f64, f64, f64, usize); 2] = [(1.0, 1.0, 0.02, 0.01, 0.05, 400), (25.0, 1.0, 0.5, 0.3, 1.0, 300)];
@@ -383,7 +386,9 @@ fn judge_a(case: &Case, l_: &mut Local) {
                 Ok(c) => c,
                 Err(_) => continue,
             };
-            let face = if case.detect_face { FaceOrient::Detect } else { FaceOrient::UpperDir(pose * Vector2::new(0.0, 1.0)) };
+            // "dirskew+" / "dirskew-": the requested upper direction is 55 degrees off the vertical, still a valid "up"
+            let up = match case.orient.as_str() { "dirskew+" => Vector2::new(-(0.96f64).sin(), (0.96f64).cos()), "dirskew-" => Vector2::new((0.96f64).sin(), (0.96f64).cos()), "dirskew0" => Vector2::new(1e-7, 1.0), _ => Vector2::new(0.0, 1.0) };
+            let face = if case.detect_face { FaceOrient::Detect } else { FaceOrient::UpperDir(pose * up) };
             let fwd = pose * Vector2::new(-1.0, 0.0);
             let tag = format!("pose {} variant {}", pi, variant);
             l_.eval();
@@ -496,6 +501,16 @@ fn judge_a(case: &Case, l_: &mut Local) {
                             if r0 == r1 && bump == 0.0 {
                                 l_.check("thickness of a constant-radius section equals twice the radius", "", (v - 2.0 * r0).abs() <= 2.0 * (tau + h), mk, || format!("{}: {} vs {}", tag, v, 2.0 * r0));
                             }
+                        }
+                        // a camber position counted back from the trailing edge is the same station counted from the front
+                        {
+                            let (fwd_g, back_g) = (g.get_thickness(AfGage::OnCamber(0.7 * cl)), g.get_thickness(AfGage::OnCamber(-0.3 * cl)));
+                            let same = match (&fwd_g, &back_g) {
+                                (Ok(a), Ok(b)) => (a.value() - b.value()).abs() <= 1e-6 * l && d2(&a.a, &b.a) <= 1e-6 * l && d2(&a.b, &b.b) <= 1e-6 * l,
+                                (Err(_), Err(_)) => true,
+                                _ => false,
+                            };
+                            l_.check("a camber-position gauge given from the trailing edge equals the one given from the leading edge", "", same, mk, || format!("{}: from the front {:?}, from the back {:?}", tag, fwd_g.as_ref().map(|d| d.value()).map_err(|e| e.to_string()), back_g.as_ref().map(|d| d.value()).map_err(|e| e.to_string())));
                         }
                         if let (Ok(d), Some(te)) = (g.get_thickness(AfGage::Radius(-0.3 * cl)), &g.trailing_edge) {
                             let ok = sec.dist_to_point(&d.a) <= 4.0 * tau && sec.dist_to_point(&d.b) <= 4.0 * tau && (d2(&d.a, &te.point) - 0.3 * cl).abs() <= 1e-6 * l && (d2(&d.b, &te.point) - 0.3 * cl).abs() <= 1e-6 * l;
@@ -806,7 +821,8 @@ pub fn judge(case: &Case, l: &mut Local) {
 
 pub fn cases(tier: Tier) -> Vec<Case> {
     let mut out = Vec::new();
-    let na = tier.pick(7, A_SECTIONS.len());
+    // (the two arches at the end of the table are used with skewed upper directions only, below)
+    let na = tier.pick(7, A_SECTIONS.len() - 2);
     for section in 0..na {
         for le in ["intersect", "fitradius", "constradius", "ransac"] {
             for orient in ["tmax", "dir"] {
@@ -832,7 +848,18 @@ pub fn cases(tier: Tier) -> Vec<Case> {
     // the strongly turning section with every leading-edge locator that appends a station of its own
     for le in ["intersect", "fitradius", "constradius", "ransac", "tracemax"] {
         for te in ["intersect", "constradius"] {
-            out.push(Case { family: "A".into(), section: A_SECTIONS.len() - 1, le: le.into(), te: te.into(), orient: "dir".into(), detect_face: false });
+            out.push(Case { family: "A".into(), section: A_SECTIONS.len() - 3, le: le.into(), te: te.into(), orient: "dir".into(), detect_face: false });
+        }
+    }
+    // the arches with the upper side requested along directions 55 degrees either side of the vertical
+    // (the arches are not given the directions within a few degrees of their axis of symmetry: the
+    // library rejects those, in every pose and vertex order alike, which the statement allows)
+    for section in [A_SECTIONS.len() - 2, A_SECTIONS.len() - 1] {
+        for orient in ["dir", "dirskew+", "dirskew-", "dirskew0"] {
+            if orient == "dir" || orient == "dirskew0" {
+                continue;
+            }
+            out.push(Case { family: "A".into(), section, le: "intersect".into(), te: "intersect".into(), orient: orient.into(), detect_face: false });
         }
     }
     // reflexed (S-shaped) camber: face detection must follow the dominant bow
@@ -881,7 +908,7 @@ pub fn cases(tier: Tier) -> Vec<Case> {
 pub fn run(tier: Tier) -> i32 {
     let mut cx = Ctx::new("C10", tier, "exploration");
     cx.rule = "generated sections with closed-form medial axes: family A = envelope of circles along a circular-arc camber (turning 0, +-0.4..0.6; length 0.3, 0.8, 2.5 (short and thick), 10, 100, 1e5; linear + sinusoidal radius laws; 200-400 samples), family B = ellipses (medial axis = focal segment), family C = family A open at the trailing end, family S = family A tapering to a sharp corner, family R = envelope along a reflexed (S-shaped) cubic camber, family K = family C with the open end cut at a skew of 0.5 .. 2.5 end radii on either surface; configurations: {TMaxFwd, DirectionFwd} x leading/trailing locators applicable to the family x {detected, given} face orientation; every configuration analysed in 4 poses x {as given, reversed, start rotated, both} (16 variants; B: 12, C: 6) with iteration budgets. distinct = distinct configurations".into();
-    cx.bounds = json!({"family_a_sections": tier.pick(7, A_SECTIONS.len()), "family_b_sections": tier.pick(3, B_SECTIONS.len()), "variants_per_configuration": 16, "iteration_budget": 400000});
+    cx.bounds = json!({"family_a_sections": tier.pick(7, A_SECTIONS.len() - 2), "family_b_sections": tier.pick(3, B_SECTIONS.len()), "variants_per_configuration": 16, "iteration_budget": 400000});
     cx.require(&["family A", "family A, chord below one unit", "family A, chord below half a unit", "face orientation detected", "face orientation given", "family B (ellipse)", "family C (open trailing end)", "sharp trailing edge", "family R (reflexed camber)", "family K (open end cut at a skew)", "configuration accepted", "open edge as the leading locator"]);
     cx.assume("tolerances in units of the analysis tolerance tau = 1e-4 * chord and the sampling step h: inscribed 2 tau, manufactured stations 20 tau, known medial axis 1 (tau + h), variant agreement 8 (tau + h); a configuration may be rejected (Err) but then for every variant alike");
     let cs = cases(tier);
